@@ -196,10 +196,11 @@ theorem updateSub_noop (st : Sub.State) (id : String) (f : Subscriber → Subscr
       · simp only [hid, if_false]
   rw [this]
 
-/-- **`eof` ends a POLL subscriber with status OK** (and changes nothing else of it) -/
+/-- **`eof` ends a POLL subscriber with status OK** (a response held inside a gated `Send` is dropped: the
+stream is gone; nothing else of the subscriber changes) -/
 theorem eof_ends_ok (st : Sub.State) (i : Nat) (s : Subscriber) (hs : st.subs[i]? = some s)
     (ha : s.alive = true) (hm : s.req.mode = .poll) :
-    (eof st s.id).subs[i]? = some { s with alive := false, status := some .ok } := by
+    (eof st s.id).subs[i]? = some { s with alive := false, status := some .ok, blocked := none } := by
   rw [eof_eq]
   unfold updateSub eofSub
   simp only [List.getElem?_map, hs, Option.map_some, if_true, ha, hm, and_self]
